@@ -503,31 +503,51 @@ func (p *Parser) parseRelationalExpression() (IEvaluator, *Error) {
 	return expr, nil
 }
 
+// ParseExpression parses a chain of `or`/`||` over chains of `and`/`&&` over relational
+// expressions. Both operators associate to the left and `and` binds tighter than `or`,
+// so that `a and b or c` reads `(a and b) or c` (as in Django, Python and C).
 func (p *Parser) ParseExpression() (IEvaluator, *Error) {
-	rexpr1, err := p.parseRelationalExpression()
+	expr, err := p.parseAndExpression()
 	if err != nil {
 		return nil, err
 	}
 
-	exp := &Expression{
-		expr1: rexpr1,
-	}
-
-	if p.PeekOne(TokenSymbol, "&&", "||") != nil || p.PeekOne(TokenKeyword, "and", "or") != nil {
+	for p.PeekOne(TokenSymbol, "||") != nil || p.PeekOne(TokenKeyword, "or") != nil {
 		op := p.Current()
 		p.Consume()
-		expr2, err := p.ParseExpression()
+		expr2, err := p.parseAndExpression()
 		if err != nil {
 			return nil, err
 		}
-		exp.expr2 = expr2
-		exp.opToken = op
+		expr = &Expression{
+			expr1:   expr,
+			expr2:   expr2,
+			opToken: op,
+		}
 	}
 
-	if exp.expr2 == nil {
-		// Shortcut for faster evaluation
-		return exp.expr1, nil
+	return expr, nil
+}
+
+func (p *Parser) parseAndExpression() (IEvaluator, *Error) {
+	expr, err := p.parseRelationalExpression()
+	if err != nil {
+		return nil, err
 	}
 
-	return exp, nil
+	for p.PeekOne(TokenSymbol, "&&") != nil || p.PeekOne(TokenKeyword, "and") != nil {
+		op := p.Current()
+		p.Consume()
+		expr2, err := p.parseRelationalExpression()
+		if err != nil {
+			return nil, err
+		}
+		expr = &Expression{
+			expr1:   expr,
+			expr2:   expr2,
+			opToken: op,
+		}
+	}
+
+	return expr, nil
 }
